@@ -12,6 +12,12 @@ What these theorems carry is the *counting* and the *linear layer*:
 * for the vector charts the differential is computed and its rank proved at **every** admissible point: quotient sphere (kernel = radial line,
   rank `n-1` at every `θ ≠ 0`), softmax (kernel = constants, rank `n-1` everywhere), `to_ball` (injective differential everywhere, the origin included).
 
+* round 6: the scalar charts (`softplus`, `exp`, open interval) have a strictly positive derivative at every point (rank 1 everywhere);
+  `to_discrete_probability_sphere` has kernel = radial line and rank `n-1` at every point with no zero coordinate; the entry placements
+  `θ ↦` pre-factor of `to_stiefel_polar/qr`, of `to_stiefel_choleskyL` and (up to the one scale direction) of `to_trace1_psd_cholesky` are injective
+  on exactly the first `stiefelParam` / `psdParam` parameters; all four placements of `to_symmetric_matrix` (real/complex × full/traceless) are
+  injective on `symParam` parameters.
+
 **Not proved (named gap):** that the rank of the differential at a *generic* θ equals the rank at one point (real-analyticity) for the matrix
 charts, and the differentials of the matrix-valued normalising maps (Cholesky, polar, qr, Euler, cayley/exp away from 0).  Stated as `generic_rank.Statement` for the exp chart; the
 generic-point rank of every map is *searched* numerically by the probe of `harness/c02.py` (autograd Jacobian) and reported as such.
@@ -23,6 +29,10 @@ import NumqiProofs.ManifoldVecDiff
 import NumqiProofs.ManifoldSoftmaxDiff
 import NumqiProofs.ManifoldPairDiff
 import NumqiProofs.ManifoldCayleyRank
+import NumqiProofs.ManifoldScalarDiff
+import NumqiProofs.ManifoldPlacement2
+import NumqiProofs.ManifoldPlacement3
+import NumqiProofs.ManifoldProbSphereDiff
 import Mathlib.LinearAlgebra.Complex.FiniteDimensional
 
 namespace Numqi.C02
@@ -95,6 +105,27 @@ theorem placement_so_injective (S : Scalars ℂ) (hS : S.Valid dim) (hd : 1 ≤ 
 theorem placement_hermitian_traceless_injective (S : Scalars ℂ) (hS : S.Valid dim) (hd : 1 ≤ dim) (θ θ' : Nat → ℝ)
     (h : toM dim dim (symmetricRaw S dim false true θ) = toM dim dim (symmetricRaw S dim false true θ')) :
     ∀ p, p < dim * dim - 1 → θ p = θ' p := symmetric_traceless_complex_injective S hS hd θ θ' h
+
+/-- **`to_symmetric_matrix`, every option: the placement `θ ↦` matrix (before the optional normalisation) is injective on exactly `symParam`
+parameters** (real/complex × full/traceless) — linear maps, hence full rank `symParam` at every θ for `is_norm1 = False` -/
+theorem placement_symmetric_injective (S : Scalars ℂ) (hS : S.Valid dim) (hd : 1 ≤ dim) (isReal isTrace0 : Bool) (θ θ' : Nat → ℝ)
+    (h : toM dim dim (symmetricRaw S dim isReal isTrace0 θ) = toM dim dim (symmetricRaw S dim isReal isTrace0 θ')) :
+    ∀ p, p < symParam dim isReal isTrace0 → θ p = θ' p := by
+  have htri : 2 * (triuPairs dim).length = dim * (dim + 1) := length_triuPairs dim
+  intro p hp
+  cases isReal <;> cases isTrace0 <;> simp only [symParam, if_true, if_false, Bool.false_eq_true] at hp
+  · exact symmetric_full_complex_injective S θ θ' h p (by omega)
+  · exact symmetric_traceless_complex_injective S hS hd θ θ' h p (by omega)
+  · exact symmetric_full_real_injective S θ θ' h p (by omega)
+  · refine symmetric_traceless_real_injective S hS hd θ θ' h p ?_
+    obtain ⟨n, rfl⟩ : ∃ n, dim = n + 1 := ⟨dim - 1, by omega⟩
+    simp only [Nat.add_sub_cancel] at hp ⊢
+    have e1 : (n + 1) * (n + 1 + 1) = (n + 1) * n + 2 * (n + 1) := by ring
+    have e2 : Even ((n + 1) * n) := by rw [Nat.mul_comm]; exact Nat.even_mul_succ_self n
+    obtain ⟨m, hm⟩ := e2
+    rw [e1, hm] at hp
+    rw [hm]
+    omega
 
 /-! ### base-point differentials -/
 
@@ -211,6 +242,56 @@ theorem soCayley_order2_full_rank {𝔸 : Type*} [NormedRing 𝔸] [NormedAlgebr
     ∃ D : E →L[ℝ] 𝔸, HasFDerivAt (fun t => cayleyMap (P t) * cayleyMap (P t)) D θ ∧ Function.Injective D
       ∧ ∀ δ, D δ = cayleyD u (P δ) * cayleyMap (P θ) + cayleyMap (P θ) * cayleyD u (P δ) :=
   cayley_sq_chart P hP θ u hu hSyl
+
+/-! ### round 6: scalar charts, probability sphere, entry placements -/
+
+/-- `PositiveReal` / `OpenInterval`: `batch_size` independent scalars (`0` encodes `None` → one scalar), never fewer than one -/
+theorem count_scalar (bs : Nat) : scalarParam bs = max 1 bs ∧ 1 ≤ scalarParam bs := by
+  unfold scalarParam; split_ifs with h <;> omega
+
+/-- `to_positive_real_softplus`: derivative `eˣ/(1+eˣ) > 0` at every point (rank 1 everywhere) -/
+theorem softplus_deriv_pos (x : ℝ) :
+    HasDerivAt (softplus : ℝ → ℝ) (Real.exp x / (1 + Real.exp x)) x ∧ 0 < Real.exp x / (1 + Real.exp x) := softplus_hasDerivAt_pos x
+/-- `to_positive_real_exp`: derivative `eˣ > 0` -/
+theorem expMap_deriv_pos (x : ℝ) : HasDerivAt (expMap : ℝ → ℝ) (Real.exp x) x ∧ 0 < Real.exp x := expMap_hasDerivAt_pos x
+/-- `to_open_interval`: derivative `(u-l)·σ(x)(1-σ(x)) > 0` whenever `l < u` -/
+theorem openInterval_deriv_pos (x l u : ℝ) (h : l < u) :
+    ∃ D, HasDerivAt (fun y => openInterval y l u) D x ∧ 0 < D ∧ D = (u - l) * (sigmoid x * (1 - sigmoid x)) :=
+  openInterval_hasDerivAt_pos x l u h
+
+/-- the model's `to_discrete_probability_sphere` is (entrywise square) ∘ (quotient map) on `EuclideanSpace ℝ (Fin n)` -/
+theorem probSphere_eq (n : Nat) (θ : Nat → ℝ) (i : Fin n) : probSphereVec n θ i.val = probSphereMap (toE n θ) i := probSphereVec_eq n θ i
+/-- … differentiable at every `x ≠ 0`, and **at every point with no zero coordinate (the interior of the simplex) the kernel of the differential is the
+radial line and the rank is `n - 1 = simplexDim`**.  (At a point with a zero coordinate the image lies on the boundary of the simplex and the rank drops:
+the hypothesis is necessary.) -/
+theorem probSphere_rank (n : Nat) (hn : 0 < n) {x : EuclideanSpace ℝ (Fin n)} (hx : ∀ i, x i ≠ 0) :
+    HasFDerivAt (probSphereMap : EuclideanSpace ℝ (Fin n) → Fin n → ℝ) (probSphereD x) x ∧
+    LinearMap.ker (probSphereD x : EuclideanSpace ℝ (Fin n) →ₗ[ℝ] (Fin n → ℝ)) = Submodule.span ℝ {x} ∧
+    Module.finrank ℝ (LinearMap.range (probSphereD x : EuclideanSpace ℝ (Fin n) →ₗ[ℝ] (Fin n → ℝ))) = simplexDim n := by
+  have hx0 : x ≠ 0 := fun h => hx ⟨0, hn⟩ (by rw [h]; rfl)
+  refine ⟨hasFDerivAt_probSphereMap hx0, ker_probSphereD hx hn, ?_⟩
+  have := finrank_range_probSphereD hx hn
+  unfold simplexDim; omega
+
+/-- the `dim × rank` pre-factor of `to_stiefel_polar` / `to_stiefel_qr` determines all `stiefelParam` parameters (pure reshape) -/
+theorem placement_stiefel_injective (rank : Nat) (isReal : Bool) (θ θ' : Nat → ℝ)
+    (h : toM dim rank (stiefelMat (K := ℂ) dim rank isReal θ) = toM dim rank (stiefelMat (K := ℂ) dim rank isReal θ')) :
+    ∀ p, p < stiefelParam dim rank isReal .polar false → θ p = θ' p := by
+  intro p hp; exact stiefelMat_injective isReal θ θ' h p (by simpa [stiefelParam] using hp)
+/-- the unit-lower-trapezoidal pre-factor of `to_stiefel_choleskyL` determines all `stiefelParam` parameters -/
+theorem placement_cholL_injective (rank : Nat) (isReal : Bool) (θ θ' : Nat → ℝ) (hrk : rank ≤ dim)
+    (h : toM dim rank (cholLMat (K := ℂ) dim rank isReal θ) = toM dim rank (cholLMat (K := ℂ) dim rank isReal θ')) :
+    ∀ p, p < stiefelParam dim rank isReal .choleskyL false → θ p = θ' p := by
+  intro p hp; exact cholLMat_placement_injective isReal θ θ' hrk h p (by simpa [stiefelParam] using hp)
+/-- the normalised Cholesky factor of `to_trace1_psd_cholesky` loses exactly the scale direction: same factor **and** same normaliser ⇒ same
+`psdParam` parameters (`softplus` on the diagonal is strictly increasing).  This is the gauge `+1` of `count_psd_cholesky_*`. -/
+theorem placement_psd_factor_injective (rank : Nat) (isReal : Bool) (θ θ' : Nat → ℝ) (hr : 1 ≤ rank) (hrk : rank ≤ dim)
+    (h : toM dim rank (psdCholFactor (K := ℂ) dim rank isReal θ) = toM dim rank (psdCholFactor (K := ℂ) dim rank isReal θ'))
+    (hn : psdNormaliser dim rank isReal θ = psdNormaliser dim rank isReal θ') :
+    ∀ p, p < psdParam dim rank isReal true → θ p = θ' p := by
+  intro p hp; exact psdCholFactor_injective_mod_scale isReal θ θ' hr hrk h hn p (by simpa [psdParam] using hp)
+
+example : ∃ x : EuclideanSpace ℝ (Fin 3), ∀ i, x i ≠ 0 := ⟨WithLp.toLp 2 fun _ => 1, fun i => by simp⟩
 
 /-! ### the gap, stated -/
 
